@@ -47,6 +47,7 @@ RUNS = {
     ],
     "C09": [
         {"name": "K4-session-names", "mode": "k4", "budget": (12000, 150000), "nontrivial": r" c\d+=", "keyfn": "k4", "monitor": "names"},
+        {"name": "K7-unlink-excludes-walks-out-of-the-entry", "mode": "k7pair", "budget": (1058, 3174), "nontrivial": r"overlap=0", "keyfn": "k7pair"},
     ],
     "C15": [
         {"name": "K4-session-faults", "mode": "k4", "budget": (12000, 150000), "nontrivial": r"r:Error=(14|5|2|13|17|20|28|30|11|39|61)\b", "keyfn": "k4", "monitor": "lifecycle"},
@@ -754,6 +755,8 @@ PROPS["C02"]["rule"] = PROPS["C02"].get("rule", "") + " k2srv frames include Tfl
 for _p in ("C01", "C02", "C03", "C11", "C18"):
     PROPS[_p]["rule"] = PROPS[_p].get("rule", "") + (" kalias readdirs: 2..4 connections list their own directories at once with blocked reply writers; every Rreaddir must carry "
         "entries of its own directory only.")
+PROPS["C09"]["rule"] = PROPS["C09"].get("rule", "") + (" k7pair: an unlink of an entry excludes every call on that entry, walks out of it included (a walk step cannot be "
+    "overtaken by an unlink-and-replace of the directory it is leaving).")
 PROPS["C10"]["level_text"] += (" Recycled response objects (Conc/RespPool.lean, after defect D20): over all clients of the process and every "
     "interleaving of calls starting, failing to send, being answered, connections failing and calls returning, a pooled response is referenced "
     "by no pending map and its channel is empty, no response serves two calls, and handleOne never blocks on a done channel while holding the "
